@@ -900,6 +900,30 @@ pub fn run_schedule(scn: &DScn, prefix: &[usize]) -> RunResult {
                     }
                 }
             }
+            // a fire-and-forget Put (its reply is never read) is given an identifier of its own
+            if let Some(spec) = scn.txns.first() {
+                let (tx0, rx0) = oneshot::channel();
+                drop(rx0);
+                let req0 = PutRequest {
+                    source_filename: "src0.bin".into(),
+                    destination_filename: "forget.bin".into(),
+                    destination_entity_id: ent(spec.to),
+                    transmission_mode: TransmissionMode::Unacknowledged,
+                    filestore_requests: vec![],
+                    message_to_user: vec![],
+                };
+                while ex.d[spec.from].ind_rx.try_recv().is_ok() {}
+                let _ = ex.d[spec.from].prim_tx.send(UserPrimitive::Put(req0, tx0)).await;
+                ex.quiesce().await;
+                while let Ok(i) = ex.d[spec.from].ind_rx.try_recv() {
+                    if let Indication::Transaction(id) = i {
+                        if ex.ids.contains(&id) {
+                            ex.violations.push(("ids-not-distinct".into(), "end".into(), format!("a Put whose reply was not awaited was given {:?} again", id)));
+                        }
+                        ex.ids.push(id);
+                    }
+                }
+            }
             // a new Put is still accepted
             if let Some(spec) = scn.txns.first() {
                 let (tx, rx) = oneshot::channel();
